@@ -40,13 +40,20 @@ impl ProtoFmt for std::net::SocketAddr {
     }
 }
 
+/// `time::Duration::new()` panics on overflow, which must not happen on decoded input.
+fn checked_duration(seconds: i64, nanos: i32) -> anyhow::Result<time::Duration> {
+    time::Duration::seconds(seconds)
+        .checked_add(time::Duration::nanoseconds(nanos.into()))
+        .context("duration overflow")
+}
+
 impl ProtoFmt for time::Utc {
     type Proto = proto::std::Timestamp;
 
     fn read(r: &Self::Proto) -> anyhow::Result<Self> {
         let seconds = *required(&r.seconds).context("seconds")?;
         let nanos = *required(&r.nanos).context("nanos")?;
-        Ok(time::UNIX_EPOCH + time::Duration::new(seconds, nanos))
+        Ok(time::UNIX_EPOCH + checked_duration(seconds, nanos)?)
     }
 
     fn build(&self) -> Self::Proto {
@@ -64,7 +71,7 @@ impl ProtoFmt for time::Duration {
     fn read(r: &Self::Proto) -> anyhow::Result<Self> {
         let seconds = *required(&r.seconds).context("seconds")?;
         let nanos = *required(&r.nanos).context("nanos")?;
-        Ok(Self::new(seconds, nanos))
+        checked_duration(seconds, nanos)
     }
 
     fn build(&self) -> Self::Proto {
